@@ -24,6 +24,8 @@ structure ApiEnv where
   cbB : Callbacks
   src : List Nat
   isPrefix : Bool
+  /-- `true`: the source is a `str` (UTF-8 boundaries), `false`: a `[u8]` -/
+  utf8 : Bool := true
 
 inductive ApiOp where
   | next (i : Nat)
@@ -45,10 +47,12 @@ deriving Repr, DecidableEq
 
 def ApiEnv.graph (env : ApiEnv) (ty : Nat) : Graph := if ty = 0 then env.gA else env.gB
 def ApiEnv.cb (env : ApiEnv) (ty : Nat) : Callbacks := if ty = 0 then env.cbA else env.cbB
+/-- `Source::is_boundary` of the source type -/
+def ApiEnv.isB (env : ApiEnv) : Nat → Bool := if env.utf8 then isBoundary env.src else isBBytes env.src.length
 
 /-- `Iterator::next`: `token_start = token_end; Token::lex(self)` -/
 def lexerNext (env : ApiEnv) (st : LexSt) : LexSt × NextRes :=
-  let r := nextLoop (walkAttempt (env.graph st.ty) env.isPrefix env.src) (env.cb st.ty) true env.src
+  let r := nextLoop (walkAttempt (env.graph st.ty) env.isPrefix env.src) (env.cb st.ty) env.utf8 env.src
     (env.src.length + 2) st.stop
   match r with
   | .item it => ({ st with start := it.start, stop := it.stop }, r)
@@ -56,7 +60,7 @@ def lexerNext (env : ApiEnv) (st : LexSt) : LexSt × NextRes :=
   | .diverge => (st, r)
 
 def lexerBump (env : ApiEnv) (st : LexSt) (n : Nat) : LexSt × Bool :=
-  match bumpFixed (isBoundary env.src) ⟨st.start, st.stop⟩ n with
+  match bumpFixed env.isB ⟨st.start, st.stop⟩ n with
   | .ok s => ({ st with start := s.start, stop := s.stop }, true)
   | .panic s => ({ st with start := s.start, stop := s.stop }, false)
 
